@@ -23,7 +23,11 @@ RULE = (
     "N in {16,24,36} bins (thorough: also the same grids offset by half a bin); for every base case all N rotations "
     "and the mirror image of each (2N members of the dihedral orbit) are evaluated and compared with the base. "
     "Units = quantity group {wind input+roughness+stress, ST4 / ST6 / Romero dissipation, wind estimate with "
-    "st4/st4 and st4/st6 balance} x grid. A base case is non-trivial when the base output is non-zero (and for the "
+    "st4/st4 and st4/st6 balance} x grid. Two further families with the same closure: marginally breaking seas "
+    "(narrow JONSWAP, 2 mean directions x 40 values of Hs^2 from 0.95 to 1.45 times the onset of breaking, so that "
+    "the number of bins above the saturation threshold runs through 0, 1, 2, ...; ST4 and ST6 dissipation) and the "
+    "wind estimate with direction_iteration=True (the standard cases plus bimodal seas on an orientation lattice "
+    "of 4 degrees spanning one bin, so that some member iterates across the 0/360 seam in either sense). A base case is non-trivial when the base output is non-zero (and for the "
     "wind estimate finite and > 0); distinct = distinct (group, grid, base case, parameter set)."
 )
 ASSUMPTIONS = [
@@ -33,8 +37,12 @@ ASSUMPTIONS = [
     "wind input, stress: compared at a supplied roughness length (the base case's own solved roughness, or 2e-4 m "
     "when that is NaN); the solved roughness itself is compared to 2e-6 relative (two Newton solves with an "
     "absolute tolerance of 1e-6 on log z0)",
-    "estimated wind: direction_iteration=False (the default); speed within 0.02 m/s (two solves stopping on a "
-    "0.01 m/s step); a base case whose estimate is NaN is counted, not compared",
+    "estimated wind, direction_iteration=False: speed within 0.02 m/s (two solves stopping on a 0.01 m/s step); a "
+    "base case whose estimate is NaN is counted, not compared",
+    "estimated wind, direction_iteration=True: the iteration stops when successive directions differ by < 1 degree, "
+    "so direction equivariance is demanded within 2 degrees and speed invariance within 0.02 m/s + the speed change "
+    "the bulk wind input itself gives for a 2-degree change of direction (measured through bulk_rate around the base "
+    "estimate); NaN-ness must agree between base and image",
     "directions are compared only when the resultant that defines them exceeds 1e-6 of the sum of magnitudes",
     "Romero dissipation on strictly positive spectra only",
 ]
@@ -43,6 +51,9 @@ REQUIRED_CATEGORIES = [
     "stress_direction_compared", "st4_field_nonzero", "st6_field_nonzero", "romero_field_nonzero",
     "dissipation_direction_compared", "estimate_speed_compared", "estimate_direction_compared", "N16", "N24", "N36",
     "ustar_input", "finite_depth",
+    "marginal_exactly_one_direction_above_threshold", "marginal_bins_above_threshold_0", "marginal_field_nonzero",
+    "diriter_compared", "diriter_speed_compared", "diriter_direction_compared", "diriter_direction_moved",
+    "diriter_seam_crossed_upwards", "diriter_seam_crossed_downwards",
 ]
 
 FREQ = 0.05 * 1.25 ** np.arange(12)
@@ -485,6 +496,182 @@ def run_diss(ctx, term):
                 if len(c.samples) < 1 and B is not None and M is not None and nonzero:
                     c.sample({"case": case, "N": N, "term": term, "bulk_of_the_2N_members": B.values,
                               "direction_of_the_2N_members": M.values})
+    if term in ("st4", "st6") and df is not None:
+        run_marginal(ctx, term, df, dth)
+
+
+# ----------------------------------------------------------------------------------------
+# marginally breaking seas: the threshold branches of the dissipation terms
+# ----------------------------------------------------------------------------------------
+MARGINAL_R = np.linspace(0.95, 1.45, 40)   # Hs^2 relative to the onset of breaking
+
+
+def reference_saturation(E, f, d, dth, width, power):
+    """band-integrated saturation of ST4 in deep water, written out (only used to place the Hs lattice around
+    the onset of breaking and to classify the cases: it never decides a violation)."""
+    w = 2 * np.pi * np.asarray(f)
+    k = w * w / 9.81
+    cg = 9.81 / (2 * w)
+    Bd = E * (cg * k ** 3 / (2 * np.pi))[:, None]
+    delta = (np.asarray(d)[None, :] - np.asarray(d)[:, None] + 180.0) % 360.0 - 180.0   # [i, j] = d_j - d_i
+    weight = np.where(np.abs(delta) <= width * (1 + 1e-9), np.cos(np.radians(delta)) ** power, 0.0) * dth[None, :]
+    return Bd @ weight.T
+
+
+def run_marginal(ctx, term, df, dth):
+    """narrow JONSWAP seas on an Hs lattice through the onset of breaking: the number of (frequency, direction)
+    bins above the saturation threshold runs through 0, 1, 2, ...; every rotation and mirror of each."""
+    c, orbit, N = ctx.c, ctx.orbit, ctx.N
+    f, d = ctx.grid["f"], ctx.grid["d"]
+    delta = 360.0 / N
+    for pset in ("default", "nondefault"):
+        dis = make_dissipation(term, pset)
+        par = dis._parameters
+        extra = {"family": "marginal_breaking"}
+        if term == "st4":
+            extra["saturation_window_edge_on_bin"] = edge_on_bin(term, pset, N)
+            width, power = float(par["saturation_integration_width_degrees"]), float(par["saturation_cosine_power"])
+            thr, relf = float(par["saturation_threshold"]), float(par["cumulative_breaking_max_relative_frequency"])
+        else:   # st6: the threshold acts on the direction-integrated saturation
+            width, power, thr, relf = 360.0, 0.0, float(par["saturation_threshold"]), 1.0
+        for frac in (0.0, 0.25):
+            mean = float(d[2] + frac * delta)
+            shape = parametric(ctx.grid, "jonswap", 1.0, 0.2, mean, 15.0)
+            B1 = reference_saturation(shape, f, d, dth, width, power)
+            low = f <= relf * f[-1] * (1 + 1e-12)          # the frequencies that can act on shorter waves
+            r_onset = thr / float(np.max(B1[low]))
+            for ri, r in enumerate(MARGINAL_R):
+                E = shape * (r * r_onset)
+                above = reference_saturation(E, f, d, dth, width, power) > thr
+                n_above = int(np.sum(above))
+                c.cat(f"marginal_bins_above_threshold_{min(n_above, 6)}{'+' if n_above >= 6 else ''}")
+                if np.any(np.sum(above[low], axis=1) == 1):
+                    c.cat("marginal_exactly_one_direction_above_threshold")
+                case = f"marginal|mean{mean:g}|r{r:.4f}"
+                c.case({"group": term, "N": N, "half": ctx.unit["half"], "case": case, "params": pset})
+                c.evaluations += 2 * N
+                ctx.count_relations()
+                sp = ctx.pool.get(orbit.spectra(E), np.inf)
+
+                def kf(check, pset=pset):
+                    return ctx.key(f"{term}_dissipation", check, pset, **extra)
+
+                R = ctx.call(kf("x"), case, dis.rate, sp)
+                B = ctx.call(kf("x"), case, dis.bulk_rate, sp)
+                M = ctx.call(kf("x"), case, dis.mean_direction_degrees, sp)
+                nonzero = False
+                if R is not None:
+                    nonzero = ctx.cmp_field(kf, case, R.values)
+                    c.cat("marginal_field_nonzero" if nonzero else "marginal_field_zero")
+                    if nonzero:
+                        c.nontriv((term, N, ctx.unit["half"], case, pset))
+                if B is not None:
+                    ctx.cmp_scalar(kf, case, B.values, "bulk", rtol=1e-10)
+                if M is not None and R is not None and nonzero \
+                        and direction_conditioning(R.values[0], f, d, np.inf, df, dth) > 1e-6:
+                    ctx.cmp_angle(kf, case, M.values, "direction")
+                    c.cat("dissipation_direction_compared")
+
+
+# ----------------------------------------------------------------------------------------
+# wind estimate with direction iteration
+# ----------------------------------------------------------------------------------------
+BIMODAL_OFFSETS = [0.0, 4.0, 8.0, 12.0, 16.0, 20.0]
+
+
+def bimodal_spectra(grid, N):
+    """asymmetric two-system seas (the stress direction differs from the dissipation-weighted direction by 0.1 to
+    30 degrees, in both senses), each on a lattice of orientations finer than that movement and spanning one bin
+    width: with all N rotations and their mirrors some member starts the iteration just below 360 degrees and
+    ends above 0 (and another the other way round)."""
+    out = []
+    for o in [x for x in BIMODAL_OFFSETS if x < 360.0 / N]:
+        out.append((f"bimodal_a+{o:g}", parametric(grid, "jonswap", 1.0, 0.3, 22.0 + o, 30.0)
+                    + parametric(grid, "jonswap", 2.0, 0.15, 82.0 + o, 20.0)))
+        out.append((f"bimodal_b+{o:g}", parametric(grid, "pm", 0.8, 0.3, 250.0 + o, 30.0)
+                    + parametric(grid, "jonswap", 3.0, 0.12, 190.0 + o, 15.0)))
+        out.append((f"bimodal_c+{o:g}", parametric(grid, "jonswap", 1.5, 0.25, 300.0 + o, 40.0)
+                    + parametric(grid, "pm", 4.0, 0.1, 355.0 + o, 15.0)))
+    return out
+
+
+def speed_tolerance(ctx, gen, E, depth, u, a):
+    """The direction iteration stops when successive directions differ by less than 1 degree, so two equivalent
+    computations may stop up to 2 degrees apart.  The wind speed then differs by what the balance itself gives
+    for such a change of direction: |dS/dtheta| * 2 deg / |dS/du| with S the bulk wind input (the dissipation
+    does not depend on the wind), measured through the public bulk_rate around the base estimate; plus the
+    0.02 m/s of the two speed solves.  None if it cannot be evaluated."""
+    du = 0.1
+    sp = ctx.pool.get(np.repeat(E[None], 5, axis=0), depth)
+    try:
+        S = gen.bulk_rate(sp, da(sp, [u, u, u, u + du, u - du]), da(sp, [a, a + 2.0, a - 2.0, a, a])).values
+    except Exception:  # noqa
+        return None
+    slope = (S[3] - S[4]) / (2 * du)
+    if not (np.all(np.isfinite(S)) and slope > 0):
+        return None
+    return 0.02 + max(abs(S[1] - S[0]), abs(S[2] - S[0])) / slope
+
+
+def run_diriter(ctx, term, pset, bal, gen, extra, label, E, depth):
+    from ocean_science_utilities.wavephysics.windestimate import estimate_u10_from_source_terms
+
+    c, orbit, N = ctx.c, ctx.orbit, ctx.N
+    case = f"{label}|depth{depth:g}"
+    c.case({"group": "inv_" + term, "N": N, "half": ctx.unit["half"], "case": case, "params": pset, "diriter": True})
+    c.evaluations += 2 * N
+    ctx.count_relations()
+    sp = ctx.pool.get(orbit.spectra(E), depth)
+
+    def kf(check):
+        return ctx.key("wind_estimate", check, pset, direction_iteration=True, **extra)
+
+    est = ctx.call(kf("x"), case, estimate_u10_from_source_terms, sp, bal, direction_iteration=True)
+    if est is None:
+        return
+    u, a = est["u10"].values, est["direction"].values
+    if not np.isfinite(u[0]):
+        # NaN-ness must agree between the base case and its images
+        c.cat("diriter_base_nan")
+        for m in range(1, 2 * N):
+            if np.isfinite(u[m]):
+                rel, k = orbit.members[m]
+                ctx.agg.add(kf(f"{rel}_u10_diriter_nan"), "estimate is NaN for the base case but finite for an image",
+                            case, float("inf"), member=[rel, k], image=float(u[m]))
+        return
+    c.cat("diriter_compared")
+    if u[0] > 0:
+        c.nontriv(("inv_" + term, N, ctx.unit["half"], case, pset, "diriter"))
+    # where the iteration started: the estimate without iteration returns the dissipation-weighted direction
+    sp1 = ctx.pool.get(E[None], depth)
+    est0 = ctx.call(kf("x"), case, estimate_u10_from_source_terms, sp1, bal)
+    if est0 is not None and np.isfinite(est0["direction"].values[0]) and u[0] > 0:
+        a0 = float(est0["direction"].values[0])
+        moved = (float(a[0]) - a0 + 180.0) % 360.0 - 180.0
+        if abs(moved) > 0.5:
+            c.cat("diriter_direction_moved")
+        for m, start in enumerate(orbit.angles(a0)):
+            end = float(a[m])
+            if np.isfinite(end) and abs(moved) < 90:
+                if start > 270 and end < 90:
+                    c.cat("diriter_seam_crossed_upwards")
+                elif start < 90 and end > 270:
+                    c.cat("diriter_seam_crossed_downwards")
+    tol = speed_tolerance(ctx, gen, E, depth, float(u[0]), float(a[0])) if u[0] > 0 else 0.02
+    if tol is None:
+        c.cat("diriter_speed_tolerance_not_evaluable")
+        # NaN-ness is still demanded
+        for m in range(1, 2 * N):
+            if not np.isfinite(u[m]):
+                rel, k = orbit.members[m]
+                ctx.agg.add(kf(f"{rel}_u10_diriter_nan"), "estimate is NaN for an image but finite for the base case",
+                            case, float("inf"), member=[rel, k], base=float(u[0]))
+    else:
+        ctx.cmp_scalar(kf, case, u, "u10_diriter", atol=tol)
+        c.cat("diriter_speed_compared")
+    if u[0] > 0:
+        ctx.cmp_angle(kf, case, a, "u10_direction_diriter", tol=2.0)
+        c.cat("diriter_direction_compared")
 
 
 def run_inv(ctx, term):
@@ -542,6 +729,13 @@ def run_inv(ctx, term):
                 if len(c.samples) < 1 and u[0] > 0:
                     c.sample({"case": case, "N": N, "balance": "st4/" + term, "u10_of_the_2N_members": u,
                               "direction_of_the_2N_members": a})
+        # direction_iteration=True: the standard cases and the bimodal orientation lattice
+        for label, E in base_spectra(ctx.grid, ctx.tier, inversion=True):
+            for depth in DEPTHS[ctx.tier]:
+                run_diriter(ctx, term, pset, bal, gen, extra, label, E, depth)
+        for label, E in bimodal_spectra(ctx.grid, N):
+            for depth in ([np.inf] if ctx.tier == "quick" else [np.inf, 20.0]):
+                run_diriter(ctx, term, pset, bal, gen, extra, label, E, depth)
 
 
 def run_unit(unit):
